@@ -999,6 +999,13 @@ func (e *SpecEnv) trCall(x *ECall) Val {
 		return Val{T: c.floatLit(negInf), Ty: tF}
 	case "biteq":
 		a, b := e.tr(x.Args[0]), e.tr(x.Args[1])
+		if c.mode == ModeFP && a.Ty != nil {
+			// IEEE mode: compare structs and small arrays field by field. z3 (4.8 and 5.1) answers
+			// `sat` for valid goals that equate datatype values with NaN fields (it distinguishes
+			// NaN representations inside datatypes; cvc5 does not) — a spurious refutation, never
+			// a spurious proof, but a false alarm all the same. Scalar FP equality is handled right.
+			return Val{T: c.bitEq(a.Ty, a.T, b.T), Ty: tBool}
+		}
 		return Val{T: eq(a.T, b.T), Ty: tBool}
 	case "real":
 		v := e.tr(x.Args[0])
